@@ -59,6 +59,8 @@ ASSUMPTIONS = [
     "version tokens of the model are materialised by fresh objects built from snapshots (copy.deepcopy of the public getters' values)",
 ]
 TRUSTED = ["copy.deepcopy / pickle of numpy arrays and commonroad value objects reproduce the primary data"]
+# translator tie: Gen.SrcC11 (regenerated from the working tree on every run by translate/src_c11.py) vs the hand model
+EXTRA_MODULES = ["CRProps.T11"]
 
 # pairs (cache, mutator) of CR.Cache.act that the histories must exercise with the cache filled before the mutator: every pair in
 # which the mutator can reach the cache (action other than keep, or it writes a field the cache reads) — check_table() verifies
